@@ -190,6 +190,9 @@ pub fn check_conn_ext(case: &ConnCase, model: &[ReqModel], out: &[u8], invs: &[I
                 return Err(("handler-unexpected-error".into(), format!("request {i}: handler operation {what} failed with {kind:?} ({})", if aborted { "only ConnectionAborted is expected after a client abort" } else { "no error is expected" })));
             }
         }
+        if !inv.wrappers_ok {
+            return Err(("request-lookup-wrappers".into(), format!("request {i}: Request::contains_var / get_var / get_var_str disagree with env_iter")));
+        }
         if !inv.zero_len_reads_ok {
             return Err(("zero-length-read-consumed".into(), format!("request {i}: a read into an empty buffer returned non-zero")));
         }
